@@ -120,6 +120,9 @@ func Unpack(buf []byte, dotu bool) (fc *Fcall, fcsz int, err error) {
 			goto szerror
 		}
 		if dotu {
+			if len(p) < 4 {
+				goto szerror
+			}
 			fc.Errornum, p = gint32(p)
 		} else {
 			fc.Errornum = 0
@@ -162,6 +165,9 @@ func Unpack(buf []byte, dotu bool) (fc *Fcall, fcsz int, err error) {
 		fc.Fid, p = gint32(p)
 		fc.Name, p = gstr(p)
 		if p == nil {
+			goto szerror
+		}
+		if len(p) < 4+1 {
 			goto szerror
 		}
 		fc.Perm, p = gint32(p)
